@@ -50,8 +50,8 @@ def guard_placement(run, f, lc):
     env_arm = None
     for bb, info in lc.switch_info.items():
         c = info["cls"]
-        if c and c[:2] == ("recv", "mailbox") and len(c) == 4 and "Envelope" in info["arms"]:
-            env_arm = info["arms"]["Envelope"]
+        if c and c[:2] == ("recv", "mailbox") and len(c) == 4 and __import__("anchors").names(f).envelope in info["arms"]:
+            env_arm = info["arms"][__import__("anchors").names(f).envelope]
     hm = lc.hooks["handle_message"]
     if not run.require(env_arm is not None and len(hm) == 1, "O20.1", "anchors", "cannot find the Envelope arm / handler call", "found"):
         return
